@@ -174,10 +174,26 @@ def _run(ex: Executor, w: World, src: FunctionSource, contract: Contract, res: F
             finals.append(o)
         else:
             raise Unsupported(f"{o.kind} outside loop")
+    if not os.environ.get("PYVC_SPLIT_OUTCOMES") and len(finals) > 2:
+        # one obligation set per kind of exit: all returns joined, all raises joined (PYVC_SPLIT_OUTCOMES=1 keeps the sites apart)
+        merged = []
+        for kind in ("return", "raise"):
+            group = [o for o in finals if o.kind == kind]
+            if len(group) <= 1:
+                merged.extend(group)
+                continue
+            for o in group:
+                o.st.env["$out"] = o.val if o.val is not None else Val(NONE, NoneType)
+                o.st.bound.pop("$out", None)
+            j = join([o.st for o in group])
+            merged.append(Outcome(kind, j, j.env["$out"], None))
+        res.outcomes_split = {"return": sum(1 for o in finals if o.kind == "return"), "raise": sum(1 for o in finals if o.kind == "raise")}
+        finals = merged
     tag = contract.name.split(".")[-1]
     raises = contract.raises
+    for o in finals:
+        res.outcomes[o.kind] += getattr(res, "outcomes_split", {}).get(o.kind, 1) if len(finals) <= 2 and hasattr(res, "outcomes_split") else 1
     for idx, o in enumerate(finals):
-        res.outcomes[o.kind] += 1
         s = o.st
         names = dict(bind)
         if o.kind == "return":
